@@ -413,6 +413,16 @@ pub fn inputs_c03(r: &mut Rng, n: usize, _tier: &str, out: &mut dyn Write) {
                 } else {
                     a
                 };
+                // ... or a duration of the magnitude of ANOTHER unit (1..999 of it, +/- a little) against this one: every ordered
+                // pair of units (seeded change C03-10: a fast path ranking units by their wire code, wrong for durations
+                // between 1 us and 1 ms against Unit::Second only)
+                let a2 = if r.chance(1, 2) {
+                    let u1 = unit_name(r);
+                    ((1 + r.below(999) as i128) * unit_factor(u1) / *r.pick(&[1i128, 1, 2, 3]) + r.range_i64(-1, 1) as i128) * if r.chance(1, 5) { -1 } else { 1 }
+                } else {
+                    a2
+                }
+                .clamp(DMIN, DMAX);
                 let op = *r.pick(&["equ", "cmpu"]);
                 writeln!(out, "{} {} {}", op, dstr(a2), u).unwrap()
             }
